@@ -302,6 +302,9 @@ func (a *Allocator) allocate(req *Request) (retErr error) {
 		return err
 	}
 
+	// Memoryless nodes can't contribute to fulfilling the request.
+	req.zone &= a.masks.nodes.hasMemory
+
 	if err := a.startJournal(); err != nil {
 		return err
 	}
@@ -326,6 +329,9 @@ func (a *Allocator) realloc(req *Request, nodes NodeMask, types TypeMask) (zone 
 		done bool
 		err  error
 	)
+
+	// Memoryless nodes can't contribute to fulfilling the request.
+	nodes &= a.masks.nodes.hasMemory
 
 	if nodes, types, done, err = a.validateRealloc(req, nodes, types); err != nil {
 		return 0, nil, err
@@ -352,8 +358,12 @@ func (a *Allocator) realloc(req *Request, nodes NodeMask, types TypeMask) (zone 
 
 	newNodes, newTypes := a.expand(req.zone|nodes, types)
 	if newNodes == 0 {
-		return 0, nil, fmt.Errorf("%w: failed to reallocate, can't find new %s nodes",
-			ErrNoMem, types)
+		if nodes&^req.zone == 0 {
+			return 0, nil, fmt.Errorf("%w: failed to reallocate, can't find new %s nodes",
+				ErrNoMem, types)
+		}
+		// No nodes beyond the requested ones, but those do extend the zone.
+		newTypes = a.zoneType(nodes)
 	}
 
 	a.zoneMove(req.zone|nodes|newNodes, req)
